@@ -34,7 +34,7 @@ where
     }
 
     pub fn clear(&mut self) {
-        self.root_mut().take();
+        teardown(self.root_mut().take());
         self.size = 0;
     }
 
@@ -389,6 +389,24 @@ impl<K, V> DoubleEndedIterator for IntoIter<K, V> {
 }
 
 impl<K, V> ExactSizeIterator for IntoIter<K, V> {}
+
+impl<K, V> Drop for IntoIter<K, V> {
+    fn drop(&mut self) {
+        teardown(self.cur.take());
+    }
+}
+
+/// Drops a (sub)tree without recursion. The compiler generated drop of a `Node` descends into
+/// both children, which overflows the stack for deep trees (monotone insertions produce a chain).
+/// Here every node is unlinked from its children before it is dropped.
+fn teardown<K, V>(root: Option<Box<Node<K, V>>>) {
+    let mut pending = Vec::new();
+    pending.extend(root);
+    while let Some(mut node) = pending.pop() {
+        pending.extend(node.pop_left());
+        pending.extend(node.pop_right());
+    }
+}
 
 /// Performs a top-down splay operation on a tree rooted at `node`. This will
 /// modify the pointer to contain the new root of the tree once the splay
